@@ -53,11 +53,10 @@ def rpoint(rng, tmax=16, fmax=64):
     return [rtime(rng, tmax), rfreq(rng, fmax)]
 
 
-def rring(rng, tmax=16, fmax=64):
-    """a simple (star-shaped) ring around a centre: non-self-intersecting"""
+def _ring_raw(rng, tmax=16, fmax=64, t0=0):
+    """a ring around a centre, vertices in angular order"""
     n = rng.randint(3, 6)
-    ct, cfq = dy(rng, 2, tmax - 2, 2), dy(rng, 8, fmax - 8, 2)
-    # pick points on an axis-aligned octagon-ish path with increasing angle class
+    ct, cfq = t0 + dy(rng, 2, max(3, tmax - 2), 2), dy(rng, 8, fmax - 8, 2)
     dirs = [(1, 0), (1, 1), (0, 1), (-1, 1), (-1, 0), (-1, -1), (0, -1), (1, -1)]
     picks = sorted(rng.sample(range(8), n))
     pts = []
@@ -69,6 +68,18 @@ def rring(rng, tmax=16, fmax=64):
     if rng.random() < 0.5:
         pts.append(list(pts[0]))
     return pts
+
+
+def rring(rng, tmax=16, fmax=64, t0=0):
+    """a simple (non-self-intersecting, non-degenerate) ring; validity decided by shapely"""
+    import shapely
+
+    for _ in range(200):
+        pts = _ring_raw(rng, tmax, fmax, t0)
+        poly = shapely.Polygon([(float(a), float(b)) for a, b in pts])
+        if poly.is_valid and poly.area > 0:
+            return pts
+    return [[Fraction(t0 + 1), Fraction(8)], [Fraction(t0 + 2), Fraction(8)], [Fraction(t0 + 2), Fraction(16)]]
 
 
 def rline(rng, forward=None, tmax=16, fmax=64):
@@ -110,7 +121,10 @@ def rgeom(rng: random.Random, typ: str | None = None, tmax=16, fmax=64) -> dict:
     elif typ == "MultiLineString":
         c = [rline(rng, True, tmax, fmax) for _ in range(rng.randint(1, 3))]
     elif typ == "MultiPolygon":
-        c = [[rring(rng, tmax, fmax)] for _ in range(rng.randint(1, 3))]
+        k = rng.randint(1, 3)
+        w = max(4, tmax // k)
+        # parts live in separate time windows so that the multipolygon is valid (parts do not overlap)
+        c = [[rring(rng, w - 1, fmax, t0=i * (w + 5))] for i in range(k)]
     else:
         raise ValueError(typ)
     return {"type": typ, "coordinates": c}
